@@ -220,6 +220,13 @@ func constructive(sh Sheet, ms []markerM, rd Read, class string, amps []amplicon
 		}
 		return nil
 	}
+	if class == "mixed" && len(amps) == 0 {
+		// partial priming sites only: nothing to extract, the read is output flagged
+		if len(recs) != 1 || recs[0].Seq != rd.Seq || !recs[0].flagged() || recs[0].assigned() {
+			return fmt.Errorf("the read carries only lone priming sites (no opening primer is followed by its closing primer): one flagged copy of the read is expected")
+		}
+		return nil
+	}
 	used := make([]bool, len(recs))
 	for _, a := range amps {
 		m := ms[a.Marker]
